@@ -22,7 +22,16 @@ META = dict(
          "of long ones) with the predicted result, database-callback count, DEL commands per second and cache "
          "contents, and each history is executed through sqlc.CachedConn on miniredis (single node and "
          "consistent-hash cluster with every placement class) with the cleaner's timing wheel driven tick by tick.",
-    note="",
+    note="Trusted: TLC, miniredis as Redis, the driver's tick barrier (a sentinel timer set right before each tick "
+         "fires last in its slot; then the cleaner's task runner is idle and the wheel has accepted a no-op). "
+         "Bounds: <= 2 ids, 2 index values, 2 payloads, 1-3 Redis nodes (placement classes split/mixed/three-way), "
+         "histories of 3-6 operations exhaustively (each <= 60 000 histories) + seeded simulated histories of 14-40 "
+         "operations, <= 4 outages, ladder rungs up to 60 s exhaustively and up to 3600 s in the thorough simulation. "
+         "Not covered: operations racing with outages or with writes (only sequential histories + concurrent readers of "
+         "uncached keys between writes), Redis Cluster type (per-key DEL branch of node.DelCtx), hit/miss statistics "
+         "(stat.go), invalid JSON in the cache (processCache), QueryRowIndex under concurrency, TakeWithExpire callers "
+         "other than QueryRowIndex. CacheAsideImpl (step-wise doTake model) of DESIGN.md was not built: the "
+         "concurrent clause is decided by validating recorded traces of the real code against CacheAsideTrace.tla.",
     technique="TLA+ spec (CacheAside) + TLC-generated histories replayed on sqlc.CachedConn/miniredis; "
               "recorded concurrent-reader traces validated against CacheAsideTrace",
     design="4/C06")
@@ -31,9 +40,6 @@ FINISH = dict(rule="histories = complete TLC enumeration (BFS over the history v
                    "per plan, each followed by heal + advance past every pending retry + audit reads, plus "
                    "seeded TLC simulation of longer histories; every step's result, callback counts, DEL "
                    "commands per second and cache contents are compared with the specification")
-
-LADDER_DEFAULT = [1, 5, 60, 300, 3600]
-
 
 def q(s):
     return '"%s"' % s
@@ -72,16 +78,16 @@ def mc(ctx, ladder):
     inv = ["TypeOK", "CacheTruth", "TTLRange"]
     props = ["Coherent", "Shield", "NoFallThrough", "RetryLadder"]
     cfg = core.render_cfg(spec="Spec", constants=K, invariants=inv, properties=props, constraints=["Bound"], view="core")
-    lvl = 7 if ctx.quick else 8
+    lvl = 6 if ctx.quick else 7
     ctx.tlc("CacheAside", cfg, constants=K, defs=dict(Bound='s.clk <= 32 /\\ TLCGet("level") <= %d' % lvl),
-            name="CacheAside-mc1", timeout=900, workers=6, heap="6g")
+            name="CacheAside-mc1", timeout=900, workers=4, heap="4g")
     # two-node cluster, primary keys on node 1, index keys on node 2
     ids, names = [1], ["a", "b"]
     K = consts(ids, names, ["x", "y"], [1, 2], {"p:1": 1, "i:a": 2, "i:b": 2}, ladder[:3], ["lo"],
                "{%s}" % DB_ONE, [1, 5, 21], 2, e=20, nf=20)
     cfg = core.render_cfg(spec="Spec", constants=K, invariants=inv, properties=props, constraints=["Bound"], view="core")
     ctx.tlc("CacheAside", cfg, constants=K, defs=dict(Bound='s.clk <= 32 /\\ TLCGet("level") <= %d' % lvl),
-            name="CacheAside-mc2", timeout=900, workers=6, heap="6g")
+            name="CacheAside-mc2", timeout=900, workers=4, heap="4g")
 
 
 def gen(ctx, name, K, *, maxops, ops, maxdown=1, tail=6, audit_ids=None, audit_names=None, simulate=None, depth=None):
@@ -93,7 +99,7 @@ def gen(ctx, name, K, *, maxops, ops, maxdown=1, tail=6, audit_ids=None, audit_n
              AuditNames="<<%s>>" % ", ".join(q(n) for n in (audit_names if audit_names is not None else names)))
     cfg = core.render_cfg(spec="GSpec", constants=G, invariants=["Emit"])
     r = ctx.tlc("CacheAsideGen", cfg, constants=G, name=name, simulate=simulate, depth=depth, timeout=1500,
-                workers=(1 if simulate else 6), heap="3g")
+                workers=(1 if simulate else 4), heap="3g")
     return r.printed
 
 
@@ -121,13 +127,13 @@ def get_ladder(ctx, binp):
 
 class Plan:
     def __init__(self, name, ids, names, datas, nodes, place, jits, initdbs, adv, maxfail, maxops, ops, maxdown=1,
-                 tail=6, fault="error", simulate=None, depth=None, shards=16, ladder_len=None):
+                 tail=6, fault="error", simulate=None, depth=None, shards=6, e=40, nf=20):
         self.__dict__.update(locals())
 
 
 def run_plan(ctx, binp, ladder, p):
-    lad = ladder[:p.ladder_len] if p.ladder_len else ladder
-    K = consts(p.ids, p.names, p.datas, list(range(1, p.nodes + 1)), p.place, lad, p.jits, p.initdbs, p.adv, p.maxfail)
+    K = consts(p.ids, p.names, p.datas, list(range(1, p.nodes + 1)), p.place, ladder, p.jits, p.initdbs, p.adv, p.maxfail,
+               e=p.e, nf=p.nf)
     cases = gen(ctx, p.name, K, maxops=p.maxops, ops=p.ops, maxdown=p.maxdown, tail=p.tail, simulate=p.simulate,
                 depth=p.depth)
     if not cases:
@@ -140,6 +146,132 @@ def run_plan(ctx, binp, ladder, p):
     return ctx.replay(PKG, OVERLAY, RUN, path, label=p.name, env=env, shards=p.shards, binp=binp, timeout=1500)
 
 
+def plans_for(ctx):
+    """generation plans; every exhaustive plan stays below ~60 000 histories (memory of TLC output and driver)"""
+    q = ctx.quick
+    ALL = READS + WRITES + ["delcache", "setcache", "adv", "down", "up"]
+    CLU = READS + WRITES + ["adv", "down", "up"]
+    i2, i1, n2, n1 = [1, 2], [1], ["a", "b"], ["a"]
+    d = ["x", "y"]
+    one2, one1, one12 = one_node(i2, n2), one_node(i1, n1), one_node(i1, n2)
+    split = {"p:1": 1, "i:a": 2, "i:b": 2}          # primary keys and index keys on different nodes
+    mixed = {"p:1": 1, "i:a": 1, "i:b": 2}          # the two index keys on different nodes
+    three = {"p:1": 1, "i:a": 2, "i:b": 3}
+    split2 = {"p:1": 1, "p:2": 2, "i:a": 2, "i:b": 1}
+    dbs = "{%s}" % DB_ONE
+    dbs2 = "{%s, %s}" % (DB_EMPTY, DB_ONE)
+    P = []
+    # coherence / shielding / TTLs (30 s and 10 s: +-5 % is fractional, so rounding up is visible) / expiry
+    P.append(Plan("coh", i2, n2, d, 1, one2, ["hi"], dbs, [1, 11], 0, 4, READS + WRITES + ["adv"], maxdown=0, e=30, nf=10))
+    P.append(Plan("coh-set", i1, n1, d, 1, one1, ["mid"], dbs2, [5, 20], 0, 4,
+                  READS + WRITES + ["delcache", "setcache", "adv"], maxdown=0))
+    # outages on one node: failed removals, retries, dirty reads
+    P.append(Plan("out", i1, n1, d, 1, one1, ["lo"], dbs, [1, 5], 3, 5 if q else 6,
+                  READS + ["put", "adv", "down", "up"], maxdown=2, e=30, nf=10))
+    # consistent-hash cluster, every placement class of {p:1, i:a, i:b} over 2 nodes, per-node outages
+    P.append(Plan("clu-split", i1, n2, d, 2, split, ["hi"], dbs, [1], 3, 4, CLU, maxdown=2))
+    P.append(Plan("clu-mixed", i1, n2, d, 2, mixed, ["mid"], dbs, [5], 3, 4, CLU, maxdown=2))
+    # the retry ladder over virtual time (rungs 1 s, 5 s, 60 s; tail long enough to see a repeat)
+    P.append(Plan("ladder", i1, n1, d, 1, one1, ["mid"], dbs, [1, 5, 60], 3, 5 if q else 6, ["put", "down", "up", "adv"],
+                  maxdown=2, tail=61))
+    # real "down, then back": the server is closed and restarted
+    P.append(Plan("close", i1, n1, d, 1, one1, ["hi"], dbs, [1, 5], 2, 3 if q else 4, ["qrow", "put", "adv", "down", "up"],
+                  maxdown=1, fault="close", shards=4, e=30, nf=10))
+    # long random histories
+    P.append(Plan("sim", i2, n2, d, 1, one2, ["lo", "mid", "hi"], dbs2, [1, 5, 10, 11, 60], 6, 14 if q else 40, ALL,
+                  maxdown=4, simulate=300 if q else 3000, depth=60, tail=61, e=30, nf=10))
+    if not q:
+        P.append(Plan("coh-lo", i2, n2, d, 1, one2, ["lo"], dbs2, [1, 10], 0, 4, READS + WRITES + ["adv"], maxdown=0, e=30, nf=10))
+        P.append(Plan("coh-mid", i2, n2, d, 1, one2, ["mid"], dbs, [20, 45], 0, 4, READS + WRITES + ["adv"], maxdown=0))
+        P.append(Plan("coh5", i1, n2, d, 1, one12, ["hi"], dbs, [1, 11], 0, 5, READS + WRITES + ["adv"], maxdown=0, e=30, nf=10))
+        P.append(Plan("coh-set5", i1, n1, d, 1, one1, ["lo"], dbs2, [19], 0, 5,
+                      READS + WRITES + ["delcache", "setcache", "adv"], maxdown=0))
+        P.append(Plan("clu-split5", i1, n2, d, 2, split, ["lo"], dbs, [1], 3, 5, READS + ["put", "down", "up"], maxdown=2))
+        P.append(Plan("clu-mixed5", i1, n2, d, 2, mixed, ["hi"], dbs, [1], 3, 5, READS + ["put", "down", "up"], maxdown=2))
+        P.append(Plan("clu-three", i1, n2, d, 3, three, ["lo"], dbs, [1, 5], 3, 4, CLU, maxdown=2, e=30, nf=10))
+        P.append(Plan("clu-2ids", i2, n2, d, 2, split2, ["hi"], dbs, [1, 5], 2, 3, CLU, maxdown=1))
+        P.append(Plan("sim-clu", i2, n2, d, 2, split2, ["lo", "mid", "hi"], dbs2, [1, 5, 20, 60], 6, 30, ALL,
+                      maxdown=4, simulate=2000, depth=60, tail=61))
+        # the whole ladder up to the last rung (thousands of virtual seconds per history)
+        P.append(Plan("sim-ladder", i1, n1, d, 1, one1, ["mid"], dbs, [1, 5, 60, 300, 3600], 6, 9,
+                      ["put", "down", "up", "adv", "qrow"], maxdown=3, simulate=150, depth=30, tail=3601))
+    return P
+
+
+def run_driver(ctx, binp, run, env, timeout=600, gomaxprocs=None):
+    import subprocess
+    e = dict(os.environ)
+    e.update(core.GOENV)
+    e.update(VERIF_SEED=str(ctx.seed), VERIF_TIER=ctx.tier)
+    e.update({k: str(v) for k, v in env.items()})
+    if gomaxprocs:
+        e["GOMAXPROCS"] = str(gomaxprocs)
+    try:
+        p = subprocess.run([binp, "-test.run", run, "-test.count=1", "-test.timeout", "%ds" % timeout], env=e,
+                           capture_output=True, text=True, timeout=timeout + 30,
+                           cwd=os.path.join(core.REPO, "lib/store/cache"))
+    except subprocess.TimeoutExpired:
+        raise core.Infra("driver %s timed out" % run)
+    return p.returncode, p.stdout + p.stderr
+
+
+def concurrent(ctx, binp):
+    """record traces of concurrent readers on the real code and validate them with TLC"""
+    import re
+    race = not ctx.quick
+    if race:
+        binp = ctx.go_build(PKG, OVERLAY, race=True, name="c06race")
+    rounds, readers = (40, 16) if ctx.quick else (150, 16)
+    for gmp in ([None] if ctx.quick else [2, 4, 16]):
+        name = "conc%s" % (gmp or "")
+        path = os.path.join(ctx.build, name + ".ndjson")
+        rc, out = run_driver(ctx, binp, "^TestVerifC06Concurrent$",
+                             dict(VERIF_OUT=path, VERIF_C06_ROUNDS=rounds, VERIF_C06_READERS=readers, VERIF_C06_E=30,
+                                  VERIF_C06_NF=10), gomaxprocs=gmp)
+        ctx.go_runs.append(dict(name=name, run="TestVerifC06Concurrent", rc=rc, race=race, gomaxprocs=gmp))
+        if rc != 0:
+            if "DATA RACE" in out and re.search(r"lib/(store/cache|store/sqlc|syncx)/[a-z]+\.go", out):
+                ctx.disagree("C06:concurrent:data-race", out[-3000:], source="trace")
+                continue
+            raise core.Infra("concurrent driver failed rc=%s\n%s" % (rc, out[-3000:]))
+        lines = open(path).read().splitlines()
+        evs = [json.loads(x) for x in lines]
+        infra = [x for x in evs if x.get("e") == "infra"]
+        if infra or not evs:
+            raise core.Infra("concurrent driver: %s" % (infra[:2] or "empty trace"))
+        K = dict(TKeys='{"p:1", "p:2"}', Readers="1..%d" % (2 * readers), TE=30, TNF=10)
+        cfg = core.render_cfg(spec="TSpec", constants=K, invariants=["AtMostOneInFlight"], check_deadlock=True)
+        r = ctx.tlc("CacheAsideTrace", cfg, constants=K, files={"c06trace.ndjson": path}, name=name, workers=1,
+                    allow_violation=True, want_json=False, timeout=900, heap="3g")
+        ndb = sum(1 for x in evs if x["e"] == "dbb")
+        nret = sum(1 for x in evs if x["e"] == "ret")
+        ctx.counters[name + ".events"] = len(evs)
+        ctx.counters[name + ".db_queries"] = ndb
+        ctx.counters[name + ".reads"] = nret
+        if r.violated:
+            outp = open(os.path.join(ctx.build, "tlc-" + name, "tlc.out"), errors="replace").read()
+            ls = re.findall(r"^/\\ l = (\d+)", outp, re.M)
+            at = int(ls[-1]) if ls else 0
+            # the last state printed is the one reached after event at-1 (invariant) / stuck before event at (deadlock)
+            idx = at - 1 if r.violated == "Deadlock" else at - 2
+            idx = max(0, min(idx, len(evs) - 1))
+            ev = evs[idx]
+            if r.violated == "AtMostOneInFlight":
+                key = "C06:concurrent:two-db-queries-in-flight"
+            else:
+                key = {"ret": "C06:concurrent:wrong-result", "dbb": "C06:concurrent:db-reached-again",
+                       "ttl": "C06:concurrent:ttl-out-of-range"}.get(ev.get("e"), "C06:concurrent:trace-rejected")
+            lo = max(0, idx - 60)
+            ctx.disagree(key, "trace %s (%d events) %s at event %d: %s" % (name, len(evs), r.violated, idx + 1, json.dumps(ev)),
+                         case=json.dumps(evs[lo:idx + 1]), step=idx + 1, source="trace")
+        else:
+            if r.distinct < len(evs):
+                raise core.Infra("trace validation explored %d states for %d events" % (r.distinct, len(evs)))
+            ctx.traces += rounds
+    if ndb >= nret:
+        raise core.Infra("concurrent driver: single-flight never shared a query (%d queries, %d reads)" % (ndb, nret))
+
+
 def run(ctx):
     binp = ctx.go_build(PKG, OVERLAY, name="c06drv")
     ladder = get_ladder(ctx, binp)
@@ -147,16 +279,66 @@ def run(ctx):
     if len(ladder) < 2 or any(a >= b for a, b in zip(ladder, ladder[1:])):
         ctx.disagree("C06:ladder-not-increasing", "retry delays %s are not increasing" % ladder, source="ladder")
         return
-    # mc(ctx, ladder)
-    ids, names = [1, 2], ["a", "b"]
-    one = one_node(ids, names)
-    plans = [Plan("gA", ids, names, ["x", "y"], 1, one, ["hi"], "{%s}" % DB_ONE, [1, 21], 2,
-                  int(os.environ.get("MAXOPS", "3")), READS + WRITES + ["adv"])]
-    plans.append(Plan("gB", [1], ["a"], ["x", "y"], 1, one_node([1], ["a"]), ["mid"], "{%s}" % DB_ONE, [1, 5], 2,
-                      int(os.environ.get("MAXOPS_B", "4")), ["qrow", "put", "adv", "down", "up"]))
-    for p in plans:
+    only = os.environ.get("C06_ONLY")
+    only = only.split(",") if only else None
+    if not only or "mc" in only:
+        mc(ctx, ladder)
+    ctx.exhaustive = True
+    for p in plans_for(ctx):
+        if only and p.name not in only:
+            continue
         run_plan(ctx, binp, ladder, p)
+    if not only or "conc" in only:
+        concurrent(ctx, binp)
+    if not only and not ctx.disagreements:
+        vacuity(ctx)
+    ctx.assumptions += [
+        "miniredis v2 stands for Redis (GET/SET EX/DEL, TTLs moved with FastForward); one model second = one tick of "
+        "the cleaner's timing wheel = one second of Redis expiry",
+        "the retry ladder %s s is read from the code (first delay of AddCleanTask = 1 s, then nextDelay); the "
+        "statement's 'increasing delays' is checked on it, the exact seconds are then used as given" % ladder,
+        "the primary-key entry written by an index read carries the 5 s safety gap on top of the jittered expiry "
+        "(cachedsql.go cacheSafeGapBetweenIndexAndPrimary); the +-5 %% clause is applied before the gap",
+        "jitter is pinned to -5 %, 0, +5 % (mathx.SetVerifUnstable) in replays and left random in the concurrent "
+        "traces; the per-address breaker inside redis.Redis is kept from rejecting (mathx.SetVerifCoin): its "
+        "behaviour is C01/C12",
+        "writes always name the affected keys (primary key, index key of the old and of the new name), as the "
+        "statement presupposes; reads that consult a key whose removal failed and has not succeeded since are "
+        "accepted with either the cached or the current row",
+        "outages are injected as error replies of the Redis node (bulk) and by closing/restarting the server "
+        "(plan 'close'); they change only between operations, not inside one",
+    ]
+
+
+def vacuity(ctx):
+    """every feature the verdict talks about must have been exercised"""
+    c = ctx.counters
+    need = {"coh.read_shielded": 1, "coh.read_nf": 1, "coh.read_row": 1, "out.retry_del_seconds": 1, "out.read_loose": 1,
+            "out.read_cacheerr": 1, "clu-split.read_cacheerr": 1, "clu-split.retry_del_seconds": 1,
+            "clu-mixed.retry_del_seconds": 1, "ladder.retry_del_seconds": 1, "close.retry_del_seconds": 1,
+            "coh-set.op_setcache": 1, "coh-set.op_delcache": 1, "sim.retry_del_seconds": 1}
+    missing = [k for k, v in need.items() if c.get(k, 0) < v]
+    if missing:
+        raise core.Infra("vacuous run: counters %s are zero" % missing)
+    if c.get("close.cases", 0) - c.get("close.abandoned_restart", 0) < 1:
+        raise core.Infra("no history with a closed/restarted server could be completed")
 
 
 def replay(ctx, rp):
-    pass
+    """re-execute exactly one reported history (or re-record the concurrent traces)"""
+    ctx.tier = rp.get("tier", ctx.tier)
+    ctx.seed = rp.get("seed", ctx.seed)
+    binp = ctx.go_build(PKG, OVERLAY, name="c06drv")
+    if rp.get("source") == "trace" or not rp.get("case"):
+        concurrent(ctx, binp)
+        return
+    plan = [p for p in plans_for(ctx) if p.name == rp.get("label")]
+    if not plan:
+        raise core.Infra("replay file names unknown plan %r" % rp.get("label"))
+    p = plan[0]
+    ladder = get_ladder(ctx, binp)
+    K = consts(p.ids, p.names, p.datas, list(range(1, p.nodes + 1)), p.place, ladder, p.jits, p.initdbs, p.adv, p.maxfail,
+               e=p.e, nf=p.nf)
+    path, _ = ctx.write_cases("replay.ndjson", [rp["case"]])
+    env = dict(VERIF_C06_CFG=drv_cfg(K, p.nodes, p.place, p.ids, p.names), VERIF_C06_FAULT=p.fault)
+    ctx.replay(PKG, OVERLAY, RUN, path, label=p.name, env=env, shards=1, binp=binp)
